@@ -1,8 +1,515 @@
-/- EmdModel.Sift — (stub; filled in by the property that owns it) -/
+/-
+  EmdModel.Sift — model of emd/sift.py: get_next_imf (C04), sift (C01, C03) and the
+  counter / cap logic of mask_sift, ensemble_sift, complete_ensemble_sift and
+  sift_second_layer (C03).
+
+  Library numerics are oracle parameters:
+    * the envelope interpolant `I` (splrep/splev, pchip) — values only; *whether* an envelope
+      exists is modelled here (`envOf`): `get_padded_extrema` returns None iff the signal has
+      fewer than two strict interior maxima (upper) / minima (lower);
+    * `D : Sig → Sig → Rat`, the energy difference in dB (`log10`).
+  Oracles take the iteration / layer index as an extra argument.  The code's oracles do not
+  depend on it (`getNextImf`, `sift` instantiate with `fun _ => E`); the generality lets the
+  correspondence driver answer oracle queries from the table recorded on the real code.
+
+  Everything is exact rational arithmetic; float comparisons `a/b < t` are written
+  cross-multiplied (`a < t*b`), which also reproduces numpy's inf/nan outcomes for `b = 0`.
+-/
 import EmdModel.Protocol
 
 namespace Sift
 
-def handle (_o : Protocol.Op) : Option String := none
+/-! ## single-IMF extraction (emd.sift.get_next_imf) -/
+
+inductive StopRule where
+  | sd (thr : Rat)
+  | rilling (sd1 sd2 tol : Rat)
+  | fixed
+
+structure ImfOpts where
+  stop : StopRule
+  step : Rat                      -- env_step_size
+  maxIters : Nat                  -- max_iters
+  energyThresh : Option Rat       -- energy_thresh
+
+/-- (upper, lower) envelope; `none` = `interp_envelope` returned None -/
+abbrev Env := Option Sig × Option Sig
+
+/-- `sd_stop(proto_imf, x1)`: `sum((proto-x1)**2)/sum(proto**2) < sd` -/
+def sdStop (thr : Rat) (h x1 : Sig) : Bool :=
+  decide (Sig.sumSq (Sig.sub h x1) < thr * Sig.sumSq h)
+
+/-- per sample: `abs(avg_env)/amp > sd` with `avg_env=(u+l)/2`, `amp=abs(u-l)/2` -/
+def rillingBig (sd : Rat) (U L : Sig) : List Bool :=
+  List.zipWith (fun u l => decide (sd * (Rat.abs' (u - l) / 2) < Rat.abs' ((u + l) / 2))) U L
+
+/-- `rilling_stop(upper, lower, sd1, sd2, tol)` -/
+def rillingStop (sd1 sd2 tol : Rat) (U L : Sig) : Bool :=
+  let big1 := rillingBig sd1 U L
+  let continue1 := decide (tol * (big1.length : Rat) < ((big1.count true : Nat) : Rat))   -- mean(eval > sd1) > tol
+  let continue2 := (rillingBig sd2 U L).any id                                          -- any(eval > sd2)
+  !(continue1 || continue2)
+
+/-- the stop test evaluated in iteration number `niters` (1-based, as in the code) -/
+def stopTest (r : StopRule) (niters maxIters : Nat) (h x1 U L : Sig) : Bool :=
+  match r with
+  | .sd thr => sdStop thr h x1
+  | .rilling a b t => rillingStop a b t U L
+  | .fixed => niters == maxIters                       -- fixed_stop
+
+/-- how the `while` loop was left -/
+inductive Outcome where
+  | stopped (k : Nat) (c : Sig)      -- the rule fired on iterate h_k; c = h_k - mean envelope
+  | noExtrema (k : Nat) (h : Sig)    -- iterate h_k has an undefined envelope; h = h_k
+  | noConverge                       -- EMDSiftCovergeError
+  deriving DecidableEq
+
+/-- The `while continue_imf` loop.  `k` = completed iterations (`niters` before the increment),
+    `h` = current proto-IMF.  The first argument is the number of iterations still allowed:
+    the code tests `niters > max_iters` *before* incrementing (non-fixed rules), so iterations
+    k = 0 … max_iters are performed and the error is raised when k = max_iters+1. -/
+def loop (E : Nat → Sig → Env) (o : ImfOpts) : Nat → Nat → Sig → Outcome
+  | 0, _, _ => .noConverge
+  | fuel + 1, k, h =>
+    match E k h with
+    | (some U, some L) =>
+      let avg := Sig.mean2 U L
+      let x1 := Sig.sub h avg
+      if stopTest o.stop (k + 1) o.maxIters h x1 U L then .stopped k x1
+      else loop E o fuel (k + 1) (Sig.sub h (Sig.smul o.step avg))
+    | _ => .noExtrema k h
+
+/-- iterations the loop can perform: max_iters+1 for sd/rilling (limit test before the increment);
+    for `fixed` the rule fires in iteration max_iters (max_iters = 0 never terminates in the code —
+    outside the documented range `max_iters > 0`, excluded by hypothesis in the theorems). -/
+def budget (o : ImfOpts) : Nat :=
+  match o.stop with
+  | .fixed => o.maxIters
+  | _ => o.maxIters + 1
+
+def run (E : Nat → Sig → Env) (o : ImfOpts) (x : Sig) : Outcome := loop E o (budget o) 0 x
+
+inductive ImfResult where
+  | imf (c : Sig) (flag : Bool)      -- (proto_imf, continue_flag)
+  | convergeError
+  deriving DecidableEq
+
+/-- `energy_thresh` handling after the loop: `_energy_difference(X, X - imf) > energy_thresh`
+    clears the flag -/
+def energyFlag (D : Sig → Sig → Rat) (o : ImfOpts) (x c : Sig) (flag : Bool) : Bool :=
+  match o.energyThresh with
+  | none => flag
+  | some t => flag && !(decide (t < D x (Sig.sub x c)))
+
+/-- Flag of the no-extrema exit: cleared only when no mean removal has happened (k = 0),
+    i.e. the input is returned unmodified as the final residual. -/
+def finish (D : Sig → Sig → Rat) (o : ImfOpts) (x : Sig) : Outcome → ImfResult
+  | .noConverge => .convergeError
+  | .stopped _ c => .imf c (energyFlag D o x c true)
+  | .noExtrema k h => .imf h (energyFlag D o x h (k != 0))
+
+def getNextImfIx (E : Nat → Sig → Env) (D : Sig → Sig → Rat) (o : ImfOpts) (x : Sig) : ImfResult :=
+  finish D o x (run E o x)
+
+/-- get_next_imf with an envelope oracle that (like the code's) does not depend on the iteration -/
+def getNextImf (E : Sig → Env) (D : Sig → Sig → Rat) (o : ImfOpts) (x : Sig) : ImfResult :=
+  getNextImfIx (fun _ => E) D o x
+
+/-- spec sequence: h₀ = x, h_{k+1} = h_k − step·mean(U h_k, L h_k); `none` once an envelope is missing -/
+def iter (E : Nat → Sig → Env) (step : Rat) : Nat → Sig → Option Sig
+  | 0, x => some x
+  | k + 1, x =>
+    match iter E step k x with
+    | none => none
+    | some h =>
+      match E k h with
+      | (some U, some L) => some (Sig.sub h (Sig.smul step (Sig.mean2 U L)))
+      | _ => none
+
+/-! ## when does an envelope exist (get_padded_extrema → None) -/
+
+/-- number of strict interior maxima (`argrelextrema(X, np.greater, order=1)`; end points never count) -/
+def peaks : Sig → Nat
+  | a :: b :: c :: t => (if a < b ∧ c < b then 1 else 0) + peaks (b :: c :: t)
+  | _ => 0
+
+/-- troughs are the peaks of `-X` -/
+def troughs (h : Sig) : Nat := peaks (Sig.neg h)
+
+/-- envelopes from an interpolation oracle: an envelope is None iff fewer than two extrema of its kind -/
+def envOf (I : Nat → Sig → Sig × Sig) : Nat → Sig → Env := fun k h =>
+  (if peaks h < 2 then none else some (I k h).1, if troughs h < 2 then none else some (I k h).2)
+
+/-! ## classic sift (emd.sift.sift) -/
+
+inductive SiftEnd where
+  | done (flagCleared capHit thrHit : Bool)   -- which of the three terminators fired in the last layer
+  | raised                                    -- the extraction raised (error propagates)
+  | outOfFuel                                 -- model artefact: the outer loop has no termination proof
+  deriving DecidableEq
+
+/-- The `while continue_sift` loop shared by `sift` and `mask_sift`; state = (columns so far,
+    running residual `proto_imf`).  `X cols proto` is the single-IMF extraction of the layer
+    (`none` = it raised); it may depend on the columns extracted so far (mask amplitude / frequency
+    of the layer), the classic sift only uses their number. -/
+def peelLoop (X : List Sig → Sig → Option (Sig × Bool)) (thr : Rat) (cap : Option Nat) (x : Sig) :
+    Nat → List Sig → Sig → List Sig × SiftEnd
+  | 0, cols, _ => (cols, .outOfFuel)
+  | fuel + 1, cols, proto =>
+    match X cols proto with
+    | none => (cols, .raised)
+    | some (c, cont) =>
+      let cols' := cols ++ [c]                                    -- imf = concatenate((imf, next_imf))
+      let proto' := Sig.sub x (Sig.vsum x.length cols')           -- proto_imf = X - imf.sum(axis=1)
+      let capHit := cap == some cols'.length                      -- layer == max_imfs
+      let thrHit := decide (Sig.absSum c < thr)                   -- abs(next_imf).sum() < sift_thresh
+      if cont && !capHit && !thrHit then peelLoop X thr cap x fuel cols' proto'
+      else (cols', .done (!cont) capHit thrHit)
+
+/-- classic sift: the extraction of layer k is `X k` -/
+def siftLoop (X : Nat → Sig → Option (Sig × Bool)) (thr : Rat) (cap : Option Nat) (x : Sig) :
+    Nat → List Sig → Sig → List Sig × SiftEnd :=
+  peelLoop (fun cols p => X cols.length p) thr cap x
+
+def siftIx (X : Nat → Sig → Option (Sig × Bool)) (thr : Rat) (cap : Option Nat) (x : Sig) (fuel : Nat) :
+    List Sig × SiftEnd :=
+  siftLoop X thr cap x fuel [] x
+
+def sift (X : Sig → Option (Sig × Bool)) (thr : Rat) (cap : Option Nat) (x : Sig) (fuel : Nat) :
+    List Sig × SiftEnd :=
+  siftIx (fun _ => X) thr cap x fuel
+
+/-- `get_next_imf` as the extractor of `sift` (a convergence error propagates: `none`) -/
+def extractorIx (E : Nat → Sig → Env) (D : Sig → Sig → Rat) (o : ImfOpts) : Sig → Option (Sig × Bool) := fun p =>
+  match getNextImfIx E D o p with
+  | .imf c f => some (c, f)
+  | .convergeError => none
+
+def extractor (E : Sig → Env) (D : Sig → Sig → Rat) (o : ImfOpts) : Sig → Option (Sig × Bool) :=
+  extractorIx (fun _ => E) D o
+
+/-! ## counter / cap logic of the other sift variants (C03) -/
+
+/-- mask_sift: `if len(mask_freqs) < max_imfs: max_imfs = len(mask_freqs)` (user supplied frequencies) -/
+def effCap (cap : Nat) (nfreqs : Option Nat) : Nat :=
+  match nfreqs with
+  | some m => if m < cap then m else cap
+  | none => cap
+
+/-- mask_sift: the same peeling loop (`imf_layer == max_imfs-1` before the increment is
+    `layer == max_imfs` after it); `M cols proto` = get_next_imf_mask with the layer's mask -/
+def maskSift (M : List Sig → Sig → Option (Sig × Bool)) (thr : Rat) (cap : Nat) (nfreqs : Option Nat)
+    (x : Sig) (fuel : Nat) : List Sig × SiftEnd :=
+  peelLoop M thr (some (effCap cap nfreqs)) x fuel [] x
+
+def colOr (n : Nat) (m : List Sig) (j : Nat) : Sig := (m[j]?).getD (Sig.zeros n)
+
+/-- mean over the members, column by column -/
+def meanOf (n : Nat) (vs : List Sig) : Sig := Sig.smul (1 / (vs.length : Rat)) (Sig.vsum n vs)
+
+def maxWidth (members : List (List Sig)) : Nat := members.foldl (fun w m => if w < m.length then m.length else w) 0
+
+/-- ensemble_sift averaging: as many columns as the widest member; a member contributes zeros beyond
+    its own last component -/
+def ensembleCols (n : Nat) (members : List (List Sig)) : List Sig :=
+  (List.range (maxWidth members)).map fun j => meanOf n (members.map fun m => colOr n m j)
+
+/-- ensemble_sift: every member is a capped classic sift of the input plus its noise -/
+def ensembleSift (X : Nat → Sig → Option (Sig × Bool)) (thr : Rat) (cap : Option Nat) (x : Sig) (fuel : Nat)
+    (noises : List Sig) : List Sig :=
+  ensembleCols x.length (noises.map fun nz => (siftIx X thr cap (Sig.add x nz) fuel).1)
+
+inductive CeemdEnd where
+  | done (pkStop capStop thrStop : Bool)
+  | outOfFuel
+  deriving DecidableEq
+
+/-- complete_ensemble_sift main loop: `Nx cols proto` = ensemble mean of the first IMFs of
+    proto ± noise_k (abstract); `layer` counts the components computed so far. -/
+def ceemdLoop (Nx : List Sig → Sig → Sig) (thr : Rat) (cap : Option Nat) (x : Sig) :
+    Nat → List Sig → List Sig × CeemdEnd
+  | 0, cols => (cols, .outOfFuel)
+  | fuel + 1, cols =>
+    let proto := Sig.sub x (Sig.vsum x.length cols)
+    let c := Nx cols proto
+    let cols' := cols ++ [c]
+    let pkStop := decide (peaks c < 2)                                       -- len(pks) < 2
+    let capStop := cap == some cols'.length                                  -- layer == max_imfs
+    let thrStop := decide (Sig.absSum c < thr * (c.length : Rat))            -- abs(next_imf).mean() < sift_thresh
+    if pkStop || capStop || thrStop then (cols', .done pkStop capStop thrStop)
+    else ceemdLoop Nx thr cap x fuel cols'
+
+/-- complete_ensemble_sift: the first component comes from a plain ensemble step; the loop is entered
+    unless the cap is already reached -/
+def ceemd (Nx : List Sig → Sig → Sig) (thr : Rat) (cap : Option Nat) (x : Sig) (fuel : Nat) :
+    List Sig × CeemdEnd :=
+  let c0 := Nx [] x
+  match cap with
+  | some k => if k ≤ 1 then ([c0], .done false true false) else ceemdLoop Nx thr cap x fuel [c0]
+  | none => ceemdLoop Nx thr cap x fuel [c0]
+
+/-- pad / keep the first `k` columns: `imf2[:, ii, :tmp.shape[1]] = tmp` into zeros of width `k` -/
+def padCols (n k : Nat) (cols : List Sig) : List Sig := (List.range k).map fun j => colOr n cols j
+
+/-- sift_second_layer: one capped sift per first-layer column, stored in a [n × first × k] array,
+    k = max_imfs of sift_args, default: number of first-layer columns -/
+def secondLayer (S : Nat → Sig → List Sig) (n : Nat) (ia : List Sig) (cap : Option Nat) : List (List Sig) :=
+  let k := cap.getD ia.length
+  ia.map fun col => padCols n k (S k col)
+
+/-! ## driver ops -/
+
+open Protocol
+
+def absR (v : Rat) : Rat := if v < 0 then -v else v
+def minR (a b : Rat) : Rat := if b < a then b else a
+def maxR (a b : Rat) : Rat := if a < b then b else a
+def maxAbs (v : Sig) : Rat := v.foldl (fun m a => maxR m (absR a)) 0
+def dist (a b : Sig) : Rat := maxAbs (Sig.sub a b)
+def relMargin (a b : Rat) : Rat :=
+  let d := maxR (absR a) (absR b)
+  if d = 0 then 1 else absR (a - b) / d
+def minList (l : List Rat) : Rat := l.foldl minR 1
+
+/-- relative margin of the stop decision taken on (h, U, L) -/
+def stopMargin (r : StopRule) (h U L : Sig) : Rat :=
+  match r with
+  | .sd thr =>
+    let avg := Sig.mean2 U L
+    relMargin (Sig.sumSq (Sig.sub h (Sig.sub h avg))) (thr * Sig.sumSq h)
+  | .rilling a b t =>
+    let per (sd : Rat) := minList (List.zipWith (fun u l => relMargin (sd * (absR (u - l) / 2)) (absR ((u + l) / 2))) U L)
+    let big1 := rillingBig a U L
+    minR (minR (per a) (per b)) (relMargin (t * (big1.length : Rat)) ((big1.count true : Nat) : Rat))
+  | .fixed => 1
+
+/-- smallest neighbour difference of an iterate (extrema detection near-ties) -/
+def minStep (skipZero : Bool) : Sig → Rat
+  | a :: b :: t =>
+    let d := absR (b - a)
+    let r := minStep skipZero (b :: t)
+    if skipZero && d == 0 then r else if r < 0 then d else minR d r
+  | _ => -1
+
+def parseStop (o : Op) : Option StopRule :=
+  match o.str? "stop" with
+  | some "sd" => (o.rat? "thr").map .sd
+  | some "rilling" => do
+      let a ← o.rat? "sd1"; let b ← o.rat? "sd2"; let t ← o.rat? "rtol"
+      pure (.rilling a b t)
+  | some "fixed" => some .fixed
+  | _ => none
+
+def parseOptRat (o : Op) (k : String) : Option (Option Rat) :=
+  match o.str? k with
+  | some "none" => some none
+  | some s => (parseRat? s).map some
+  | none => none
+
+def parseOptNat (o : Op) (k : String) : Option (Option Nat) :=
+  match o.str? k with
+  | some "none" => some none
+  | some s => s.toNat?.map some
+  | none => none
+
+/-- split the vector slots after position `i` into rows of `w` slots -/
+def rows (w : Nat) (l : List (Option (List Rat))) : Nat → List (List (Option (List Rat)))
+  | 0 => []
+  | f + 1 => if l.length < w ∨ w = 0 then [] else l.take w :: rows w (l.drop w) f
+
+structure GniRow where
+  R : Sig
+  U : Option Sig
+  L : Option Sig
+
+def gniRows (n : Nat) (slots : List (Option (List Rat))) : Option (List GniRow) :=
+  if slots.length % 3 ≠ 0 then none else
+  (rows 3 slots slots.length).mapM fun r =>
+    match r with
+    | [some R, U, L] =>
+      if R.length = n ∧ (U.map (·.length)).getD n = n ∧ (L.map (·.length)).getD n = n then some { R, U, L } else none
+    | _ => none
+
+/-- the iterates h_0 … visited by the loop (at most `m+1`), driver-side trace -/
+def trace (E : Nat → Sig → Env) (step : Rat) : Nat → Nat → Sig → List Sig
+  | 0, _, h => [h]
+  | m + 1, k, h =>
+    match E k h with
+    | (some U, some L) => h :: trace E step m (k + 1) (Sig.sub h (Sig.smul step (Sig.mean2 U L)))
+    | _ => [h]
+
+def handleGni (o : Op) : String := Id.run do
+  let some stop := parseStop o | return "bad-op"
+  let some step := o.rat? "step" | return "bad-op"
+  let some maxIters := o.nat? "maxit" | return "bad-op"
+  let some ethr := parseOptRat o "ethr" | return "bad-op"
+  let some tol := o.rat? "tol" | return "bad-op"
+  let some x := o.vec? 0 | return "bad-op"
+  let some edb := o.vec? 1 | return "bad-op"
+  let some tbl := gniRows x.length (o.vecs.drop 2) | return "bad-op"
+  let opts : ImfOpts := { stop, step, maxIters, energyThresh := ethr }
+  if stop matches .fixed then
+    if maxIters = 0 then return "bad-op"      -- the code does not terminate; outside the documented range
+  let I : Nat → Sig → Sig × Sig := fun k _ =>
+    match tbl[k]? with
+    | some r => (r.U.getD [], r.L.getD [])
+    | none => ([], [])
+  let E := envOf I
+  let out := run E opts x
+  let (exit, k) := match out with
+    | .stopped k _ => ("stop", k)
+    | .noExtrema k _ => ("noext", k)
+    | .noConverge => ("err", budget opts - 1)
+  -- consistency of the oracle table with the model's own iterates
+  let hs := trace E step k 0 x
+  if tbl.length < hs.length then return s!"oracle-desync table-too-short need={hs.length} have={tbl.length}"
+  let mut envdis : Int := -1
+  let mut margin : Rat := 1
+  let mut extm : Rat := -1
+  let mut j := 0
+  for (h, r) in hs.zip tbl do
+    if tol < dist h r.R then return s!"oracle-desync iterate={j} dist={fmtRat (dist h r.R)}"
+    let pn := decide (peaks h < 2)
+    let tn := decide (troughs h < 2)
+    if envdis < 0 ∧ (pn != r.U.isNone ∨ tn != r.L.isNone) then envdis := j
+    let ms := minStep (j == 0) h
+    if 0 ≤ ms ∧ (extm < 0 ∨ ms < extm) then extm := ms
+    match r.U, r.L with
+    | some U, some L => margin := minR margin (stopMargin stop h U L)
+    | _, _ => pure ()
+    j := j + 1
+  let D : Sig → Sig → Rat := fun _ _ => (edb[k]?).getD 0
+  if ethr.isSome ∧ edb.length ≤ k ∧ !(exit == "err") then return "oracle-desync energy-table-too-short"
+  let tail := s!"iters={k} margin={fmtRat margin} extm={fmtRat extm} envdis={envdis}"
+  match finish D opts x out with
+  | .convergeError => return s!"err EMDSiftCovergeError {tail}"
+  | .imf c flag => return s!"ok exit={exit} flag={fmtBool flag} {tail} | {fmtVec c}"
+
+def handleStop (o : Op) : String := Id.run do
+  let some stop := parseStop o | return "bad-op"
+  let some niters := o.nat? "niters" | return "bad-op"
+  let some maxIters := o.nat? "maxit" | return "bad-op"
+  let some h := o.vec? 0 | return "bad-op"
+  let some x1 := o.vec? 1 | return "bad-op"
+  let some U := o.vec? 2 | return "bad-op"
+  let some L := o.vec? 3 | return "bad-op"
+  if h.length ≠ x1.length ∨ U.length ≠ L.length then return "bad-op"
+  let m := match stop with
+    | .sd thr => relMargin (Sig.sumSq (Sig.sub h x1)) (thr * Sig.sumSq h)
+    | _ => stopMargin stop h U L
+  return s!"ok stop={fmtBool (stopTest stop niters maxIters h x1 U L)} margin={fmtRat m}"
+
+def handlePeaks (o : Op) : String :=
+  match o.vec? 0 with
+  | some h => s!"ok peaks={peaks h} troughs={troughs h}"
+  | none => "bad-op"
+
+structure SiftRow where
+  R : Sig                       -- residual the real extraction was applied to
+  c : Option Sig                -- its output (none = it raised)
+  flag : Bool
+
+def siftRows (n : Nat) (flags : List Rat) (slots : List (Option (List Rat))) : Option (List SiftRow) :=
+  if slots.length ≠ 2 * flags.length then none else
+  ((rows 2 slots slots.length).zip flags).mapM fun (r, f) =>
+    match r with
+    | [some R, c] =>
+      if R.length = n ∧ (c.map (·.length)).getD n = n ∧ (f = 0 ∨ f = 1) ∧ (c.isNone → f = 0)
+      then some { R, c, flag := decide (f = 1) } else none
+    | _ => none
+
+/-- residuals x − Σ first k columns, k = 0 … cols.length − 1 (driver-side trace) -/
+def residuals (x : Sig) (cols : List Sig) : List Sig :=
+  (List.range cols.length).map fun k => if k = 0 then x else Sig.sub x (Sig.vsum x.length (cols.take k))
+
+def handleSift (mask : Bool) (o : Op) : String := Id.run do
+  let some thr := o.rat? "thr" | return "bad-op"
+  let some cap0 := parseOptNat o "cap" | return "bad-op"
+  let some tol := o.rat? "tol" | return "bad-op"
+  let some x := o.vec? 0 | return "bad-op"
+  let some flags := o.vec? 1 | return "bad-op"
+  let some tbl := siftRows x.length flags (o.vecs.drop 2) | return "bad-op"
+  let X : Nat → Sig → Option (Sig × Bool) := fun k _ =>
+    match tbl[k]? with
+    | some r => r.c.map fun c => (c, r.flag)
+    | none => none
+  -- mask_sift: integer cap required, lowered to the number of user supplied frequencies
+  let mut res : List Sig × SiftEnd := ([], .outOfFuel)
+  if mask then
+    let some nf := parseOptNat o "nfreqs" | return "bad-op"
+    let some c := cap0 | return "bad-op"
+    if effCap c nf = 0 then return "bad-op"
+    res := maskSift (fun cols p => X cols.length p) thr c nf x tbl.length
+  else
+    res := siftIx X thr cap0 x tbl.length
+  let (cols, e) := res
+  -- the table rows must have been produced on the residuals the model computes itself
+  let nvisit := match e with | .raised => cols.length + 1 | _ => cols.length
+  let mut j := 0
+  for (p, r) in ((residuals x (cols ++ [[]])).take nvisit).zip tbl do
+    if tol < dist p r.R then return s!"oracle-desync layer={j} dist={fmtRat (dist p r.R)}"
+    j := j + 1
+  let margin := minList (cols.map fun c => relMargin (Sig.absSum c) thr)
+  let resid := Sig.sub (Sig.vsum x.length cols) x
+  match e with
+  | .raised => return s!"err EMDSiftCovergeError ncols={cols.length}"
+  | .outOfFuel => return s!"ok ncols={cols.length} exit=fuel margin={fmtRat margin} | {fmtVec resid}"
+  | .done f c t =>
+    return s!"ok ncols={cols.length} exit=done flag={fmtBool f} cap={fmtBool c} thr={fmtBool t} margin={fmtRat margin} | {fmtVec resid}"
+
+/-- ENS-SHAPE: column count of the ensemble mean from the members' widths -/
+def handleEns (o : Op) : String := Id.run do
+  let some n := o.nat? "n" | return "bad-op"
+  let some ws := (o.vec? 0) >>= toNats? | return "bad-op"
+  if ws.isEmpty then return "bad-op"
+  let members := ws.map fun w => List.replicate w (Sig.zeros n)
+  let out := ensembleCols n members
+  return s!"ok ncols={out.length} rows={if out.all (·.length == n) then n else 0}"
+
+/-- CEEMD-SHAPE: replay of the counter logic on the stop causes observed per loop column -/
+def handleCeemd (o : Op) : String := Id.run do
+  let some cap := parseOptNat o "cap" | return "bad-op"
+  let some pk := (o.vec? 0) >>= toBools? | return "bad-op"
+  let some th := (o.vec? 1) >>= toBools? | return "bad-op"
+  if pk.length ≠ th.length then return "bad-op"
+  let synth (p t : Bool) : Sig :=
+    match p, t with
+    | true, true => [0, 0, 0, 0, 0]          -- < 2 maxima, mean abs below threshold 1
+    | true, false => [10, 10, 10, 10, 10]
+    | false, true => [0, 1, 0, 1, 0]         -- 2 maxima, mean abs 2/5 < 1
+    | false, false => [0, 10, 0, 10, 0]
+  let Nx : List Sig → Sig → Sig := fun cols _ =>
+    if cols.length = 0 then [0, 10, 0, 10, 0]
+    else synth ((pk[cols.length - 1]?).getD false) ((th[cols.length - 1]?).getD false)
+  let (cols, e) := ceemd Nx 1 cap [0, 0, 0, 0, 0] pk.length
+  match e with
+  | .outOfFuel => return s!"ok ncols={cols.length} exit=fuel"
+  | .done a b c => return s!"ok ncols={cols.length} exit=done pk={fmtBool a} cap={fmtBool b} thr={fmtBool c}"
+
+/-- L2-SHAPE: shape and zero padding of the second-layer array from the widths of the inner sifts -/
+def handleL2 (o : Op) : String := Id.run do
+  let some cap := parseOptNat o "cap" | return "bad-op"
+  let some ws := (o.vec? 0) >>= toNats? | return "bad-op"
+  let ia : List Sig := (List.range ws.length).map fun (i : Nat) => [((i : Nat) : Rat)]
+  let S : Nat → Sig → List Sig := fun k col =>
+    let i := match col with | [v] => v.num.toNat | _ => 0
+    (List.replicate ((ws[i]?).getD 0) [1]).take k
+  let out := secondLayer S 1 ia cap
+  let d2 := match out with | b :: _ => b.length | [] => cap.getD ia.length
+  let uniform := out.all (·.length == d2)
+  let filled := out.map fun b => (b.filter (· != [0])).length
+  return s!"ok d1={out.length} d2={d2} uniform={fmtBool uniform} | {fmtNats filled}"
+
+def handle (o : Op) : Option String :=
+  match o.name with
+  | "GNI" => some (handleGni o)
+  | "STOP" => some (handleStop o)
+  | "PEAKS" => some (handlePeaks o)
+  | "SIFT" => some (handleSift false o)
+  | "MASKSIFT" => some (handleSift true o)
+  | "ENS-SHAPE" => some (handleEns o)
+  | "CEEMD-SHAPE" => some (handleCeemd o)
+  | "L2-SHAPE" => some (handleL2 o)
+  | _ => none
 
 end Sift
